@@ -22,8 +22,8 @@ func init() { Registry["C10"] = c10 }
 func c10Alphabet() *term.Alphabet {
 	return &term.Alphabet{
 		Leaves: map[term.Ty][]*term.Term{
-			B: {term.Const(true), term.Const(false), term.Var("b", B), {K: term.KConst, Val: int64(1), Lit: "1", Ty: B}},
-			I: {term.Const(1), term.Const(0), term.Var("n", I), {K: term.KConst, Val: "1", Lit: `"1"`, Ty: I}},
+			B:        {term.Const(true), term.Const(false), term.Var("b", B), {K: term.KConst, Val: int64(1), Lit: "1", Ty: B}},
+			I:        {term.Const(1), term.Const(0), term.Var("n", I), {K: term.KConst, Val: "1", Lit: `"1"`, Ty: I}},
 			term.TSL: {term.Const([]string{})},
 		},
 		Ops: []term.OpSig{
@@ -70,11 +70,11 @@ func (s *c10state) fns() map[string]ref.CustomFn {
 		}
 	}
 	return map[string]ref.CustomFn{
-		"s1":   pure(func(v int64) int64 { return v + 1 }),
-		"m1":   pure(func(v int64) int64 { return 2 * v }),
-		"a1":   stateful("a1"),
-		"o1":   stateful("o1"),
-		"u1":   stateful("u1"),
+		"s1": pure(func(v int64) int64 { return v + 1 }),
+		"m1": pure(func(v int64) int64 { return 2 * v }),
+		"a1": stateful("a1"),
+		"o1": stateful("o1"),
+		"u1": stateful("u1"),
 		"b2": func(a []interface{}) (interface{}, error) {
 			s.ord["b2"]++
 			if len(a) != 2 {
